@@ -44,8 +44,16 @@ Definition parse_compact_size_uint (payload : bytes) : result (Z * bytes) :=
   end.
 
 (* Python slices  l[:z]  and  l[z:]  for an integer z >= 0 that may be far larger than len(l)
-   (a parsed length is < 2^64): the index is clamped to the length first, as Python does, so that no
-   data-sized [nat] is ever built.  (Negative z never reaches these: parsed integers are >= 0.) *)
-Definition clampZ {A} (z : Z) (l : list A) : nat := Z.to_nat (Z.min z (Z.of_nat (length l))).
-Definition takeZ {A} (z : Z) (l : list A) : list A := firstn (clampZ z l) l.
-Definition dropZ {A} (z : Z) (l : list A) : list A := skipn (clampZ z l) l.
+   (a parsed length is < 2^64): structural recursion on the list with a Z counter, so that no data-sized
+   [nat] is ever built and the cost is min(z, len l) like Python's.  (For z < 0 these return [] / l;
+   negative z never reaches them: parsed integers are >= 0.) *)
+Fixpoint takeZ {A} (z : Z) (l : list A) : list A :=
+  match l with
+  | [] => []
+  | x :: xs => if z <=? 0 then [] else x :: takeZ (z - 1) xs
+  end.
+Fixpoint dropZ {A} (z : Z) (l : list A) : list A :=
+  match l with
+  | [] => []
+  | x :: xs => if z <=? 0 then l else dropZ (z - 1) xs
+  end.
